@@ -300,6 +300,15 @@ def announce_attributes(
                 await reactor.processes.answer_error(service)
                 return
 
+            # a route which cannot be put on the wire (no next hop, no label, no rd) is refused here: queued, it
+            # raised in the peer loop when the UPDATE was generated and took the session down
+            for route in routes:
+                error = validate_announce(route)
+                if error:
+                    self.log_failure(f'invalid route: {error}')
+                    await reactor.processes.answer_error(service, error)
+                    return
+
             # Register flush callbacks for connected peers (if sync mode)
             flush_events = register_flush_callbacks(peers, reactor, sync_mode)
 
@@ -601,6 +610,15 @@ def announce_ipv4(
                 await reactor.processes.answer_error(service)
                 return
 
+            # a route which cannot be put on the wire (no next hop, no label, no rd) is refused here: queued, it
+            # raised in the peer loop when the UPDATE was generated and took the session down
+            for route in routes:
+                error = validate_announce(route)
+                if error:
+                    self.log_failure(f'invalid route: {error}')
+                    await reactor.processes.answer_error(service, error)
+                    return
+
             # Register flush callbacks for connected peers (if sync mode)
             flush_events = register_flush_callbacks(peers, reactor, sync_mode)
 
@@ -682,6 +700,15 @@ def announce_ipv6(
                 self.log_failure(f'command could not parse ipv6 in : {cmd}')
                 await reactor.processes.answer_error(service)
                 return
+
+            # a route which cannot be put on the wire (no next hop, no label, no rd) is refused here: queued, it
+            # raised in the peer loop when the UPDATE was generated and took the session down
+            for route in routes:
+                error = validate_announce(route)
+                if error:
+                    self.log_failure(f'invalid route: {error}')
+                    await reactor.processes.answer_error(service, error)
+                    return
 
             # Register flush callbacks for connected peers (if sync mode)
             flush_events = register_flush_callbacks(peers, reactor, sync_mode)
